@@ -34,7 +34,7 @@ def random_tls_flow(rng, idx=0, ep=None, nmax=12, big=False, segkinds=("mss", "r
     if duplex:      # full-duplex application phase: the two directions' segments interleave
         segs = tcpcap.interleave_app(segs, conn.events, rng)
         segkind += "+duplex"
-    fl = scene.tls_flow(conn, ep, segs)
+    fl = scene.tls_flow(conn, ep, segs, ethpad=(ep.cport + ep.cisn) % 5 == 0)      # a fifth of the flows: receiver-side capture with Ethernet padding
     fl.label = f"tls-{suites.VNAME[v]}-{c:04X}" + ("-resumes" if resume_of is not None else "")
     fl.segkind = segkind
     return fl
